@@ -208,7 +208,7 @@ class TablerowTag(Tag):
         block_token = stream.current()
         assert block_token is not None
         block = BlockNode(
-            block_token, self.env.parser.parse_block(stream, end=("endtablerow"))
+            block_token, self.env.parser.parse_block(stream, end=("endtablerow",))
         )
 
         stream.expect_tag("endtablerow")
